@@ -199,7 +199,7 @@ theorem C05_history (d : Nat) (ops : List CacheOp) (k : CSpec.Key) :
     storedExpiry (run d ops) k.name k.rtype k.fields = absFind (runBoth (PCache.new d) [] ops).2 k := by
   have h1 := runBoth_fst (PCache.new d) [] ops
   refine ⟨h1, ?_⟩
-  have := (Sim.new d).runBoth (Inv.new d) ops k
+  have := (CacheSim.new d).runBoth (Inv.new d) ops k
   rw [h1] at this
   exact this
 
